@@ -3,7 +3,8 @@
 import json, os, sys
 HERE = os.path.dirname(os.path.dirname(os.path.abspath(__file__)))
 sys.path.insert(0, HERE)
-from harness.manifest_data import CHECKS, NOT_APPLICABLE, NOTES, SOURCE_COMMITS
+from harness.manifest_data import CHECKS, NOT_APPLICABLE, NOTES, SOURCE_COMMITS, PENDING
+CHECKS = {k: v for k, v in CHECKS.items() if k not in PENDING}
 props = [json.loads(l)["id"] for l in open(os.path.join(HERE, "properties.jsonl"))]
 checks = []
 for pid in props:
